@@ -151,7 +151,11 @@ def _parse(r):
                     r.prints.append(_tla_unquote(ln))
                 except Exception:
                     pass
-        if ln.startswith("State ") and ":" in ln:
+        if "violated by the initial state" in ln:
+            in_trace = True
+            cur = [ln]
+            r.trace.append(cur)
+        elif ln.startswith("State ") and ":" in ln:
             in_trace = True
             cur = [ln]
             r.trace.append(cur)
